@@ -120,7 +120,13 @@ def run (op : String) (a : Json) : Option (Except String Json) :=
       let m ← asNsMap (a.getObjValD "ns_map")
       let cfg ← getCfg a
       let (calls, e) := handlerRun tblNsEnv cfg false m es
-      pure <| ok (jObj [("calls", jList jCall calls), ("err", jOpt (fun (x : Err) => Json.str x.name) e),
+      pure <| ok (jObj [("calls", jList jCall calls), ("err", jOpt (fun (x : Err) => Json.str x.name) e)])
+  | "writer.lxml" => some do
+      let es ← getEvents a
+      let m ← asNsMap (a.getObjValD "ns_map")
+      let cfg ← getCfg a
+      let (calls, e) := handlerRun tblNsEnv cfg false m es
+      pure <| ok (jObj [("err", jOpt (fun (x : Err) => Json.str x.name) e),
                         ("tree", jOpt jNode (if e.isNone then saxTree calls else none))])
   | "writer.events_tree" => some do
       let es ← getEvents a
